@@ -387,6 +387,30 @@ pub fn generate(rng: &mut Rng, ctx: &GenCtx) -> Op {
                 pairs.push((ca.inst, ca.name.clone(), child.clone()));
             }
         }
+        // A suspended child is where entitlement changes and the
+        // certificate kept aside can drift apart: stay on it for a while
+        // (change its entitlement, then wake it up).
+        let suspended: Vec<(usize, String, String)> = pairs.iter()
+            .filter(|(i, p, c)| {
+                model.child_at(*i, p, c).map(|c| c.suspended).unwrap_or(false)
+            }).cloned().collect();
+        if !suspended.is_empty() && cfg.allow_suspend && rng.chance(1, 2) {
+            let (inst, parent, child) = rng.pick(&suspended).clone();
+            let held = ctx.views.get(&crate::model::ca_key(inst, &parent))
+                .map(|v| v.held).unwrap_or(Res::NONE);
+            let cur = model.child_at(inst, &parent, &child)
+                .map(|c| c.ent).unwrap_or(Res::NONE);
+            return match rng.below(4) {
+                0 => Op::ChildResources {
+                    inst, parent, child, res: random_res(rng, &cur, false),
+                },
+                1 => Op::ChildResources {
+                    inst, parent, child,
+                    res: cur.union(&random_res(rng, &held, true)),
+                },
+                _ => Op::ChildSuspend { inst, parent, child, suspend: false },
+            }
+        }
         if let Some((inst, parent, child)) = rng.pick_opt(&pairs).cloned() {
             let held = ctx.views.get(&crate::model::ca_key(inst, &parent))
                 .map(|v| v.held).unwrap_or(Res::NONE);
@@ -502,11 +526,11 @@ pub fn generate(rng: &mut Rng, ctx: &GenCtx) -> Op {
 
     if pick < cfg.w_maintenance {
         let inst = rng.usize(ctx.n_insts);
-        return match rng.below(6) {
+        return match rng.below(7) {
             0 | 1 => Op::RefreshAll { inst },
             2 => Op::RepublishAll { inst, force: rng.chance(1, 2) },
             3 => Op::RepoSyncAll { inst },
-            4 => Op::Snapshot { inst },
+            4 | 6 => Op::Snapshot { inst },
             _ => {
                 if cfg.allow_restart && ctx.disk[inst] {
                     Op::Restart { inst }
@@ -692,7 +716,11 @@ fn gen_bgpsec(
 fn free_name(ctx: &GenCtx, inst: usize) -> String {
     for i in 0.. {
         let name = format!("c{i}");
-        if ctx.model.ca(inst, &name).is_none() && !ctx.retired.contains(&name)
+        // Unique over all instances: the name is also the publisher handle
+        // and the directory at the (shared) repository.
+        let _ = inst;
+        if !ctx.model.cas.values().any(|c| c.name == name)
+            && !ctx.retired.contains(&name)
         {
             return name
         }
